@@ -24,6 +24,7 @@ package varlink
 //@ pred wrote1(c) = (c.In.Oneway ==> wcount == old(wcount)) && (wcount == old(wcount) || wcount == old(wcount) + 1) && (result == nil && !c.In.Oneway ==> wcount == old(wcount) + 1)
 
 //@ func (ReadWriterContext).Write(self, ctx, b)
+//@   requires [nul-terminated C02] len(b) >= 1 && b[len(b) - 1] == 0
 //@   modifies wcount
 //@   ensures wcount == old(wcount) + 1
 
@@ -34,7 +35,7 @@ package varlink
 //@ func (*Call).sendMessage {C01 C02 C04 C10 C12 | safety: C10}
 //@   requires [nn] callOK(c) && r != nil
 //@   modifies wcount, wlastErr, wlastCont, wlastParams, gm
-//@   ensures [wrote C01 C04 C10 C12] wrote1(c)
+//@   ensures [wrote C01 C02 C04 C10 C12] wrote1(c)
 //@   ensures [what C01 C04 C12] wcount == old(wcount) + 1 ==> wlastErr == r.Error && wlastCont == r.Continues && wlastParams == r.Parameters
 //@   ensures [unch C01 C04 C12] wcount == old(wcount) ==> wlastErr == old(wlastErr) && wlastCont == old(wlastCont) && wlastParams == old(wlastParams)
 //@   ghostset at call(Marshal)#1 : gm = res0
